@@ -8,6 +8,11 @@ CHECKS = {}
 def add(i, technique, text, note, ref=None):
     CHECKS[i] = (technique, text, note, ref or f"DESIGN.md section 4, {i}")
 
+def more(i, text="", note="", technique=""):
+    """Append sentences to an entry (later strengthening rounds)."""
+    t, x, n, r = CHECKS[i]
+    CHECKS[i] = (t + ("; " + technique if technique else ""), (x + " " + text).strip(), (n + " " + note).strip(), r)
+
 exec(open(os.path.join(ROOT, "tools", "checks_table.py")).read())
 
 props = [json.loads(l) for l in open(os.path.join(ROOT, "properties.jsonl"))]
@@ -32,7 +37,7 @@ man = {
     "notes": "Technique family: property-based testing and fuzzing only. Exit 0 = held (possibly KNOWN-FINDING lines), 1 = VIOLATION line, 2 = build failure / inconclusive. known_findings.json lists repaired (fixed) and recorded (known) defects.",
 }
 if os.path.isdir(os.path.join(ROOT, "fuzz")):
-    man["engines"].append({"name": "libfuzzer", "path": "fuzz", "serves_properties": ["C09", "C15", "C16", "C17"],
+    man["engines"].append({"name": "libfuzzer", "path": "fuzz", "serves_properties": ["C09", "C15", "C17"],
         "kind_free_text": "cargo-fuzz / libFuzzer targets with the semantic oracle inside the target (thorough tier)"})
 for p in props:
     i = p["id"]
